@@ -653,6 +653,7 @@ func c06From(t *rapid.T, re *rootEnv, h *history) {
 	}
 	if rapid.IntRange(0, 1).Draw(t, "mode") == 0 {
 		h.add("CorruptEach", fmt.Sprintf("%d single faults", len(sites)))
+		h.kinds[len(h.kinds)-1] = fmt.Sprintf("CorruptEach:%d", len(sites))
 		for _, f := range sites {
 			run([]fault{f}, "single fault")
 		}
@@ -677,6 +678,11 @@ func c06From(t *rapid.T, re *rootEnv, h *history) {
 		}
 	}
 	h.add("CorruptSet", describeFaults(fs))
+	var ks []string
+	for _, f := range fs {
+		ks = append(ks, f.kind)
+	}
+	h.kinds[len(h.kinds)-1] = "CorruptSet:" + strings.Join(ks, "+")
 	run(fs, "fault set")
 }
 
@@ -721,6 +727,7 @@ func c06To(t *rapid.T, re *rootEnv, h *history) {
 	}
 	if rapid.IntRange(0, 1).Draw(t, "mode") == 0 {
 		h.add("RemoveEachType", fmt.Sprintf("%d single faults", len(keys)))
+		h.kinds[len(h.kinds)-1] = fmt.Sprintf("RemoveEachType:%d", len(keys))
 		for _, k := range keys {
 			run([]typeFault{uniq[k]}, "single removed type")
 		}
@@ -745,5 +752,6 @@ func c06To(t *rapid.T, re *rootEnv, h *history) {
 		}
 	}
 	h.add("RemoveTypes", fmt.Sprint(removedList(fs)))
+	h.kinds[len(h.kinds)-1] = "RemoveTypes:" + strings.Join(removedList(fs), "+")
 	run(fs, "set of removed types")
 }
